@@ -581,7 +581,10 @@ def rule_P6(ctx):
             if s_.kind != "stmt":
                 continue
             for n, k, v in grow_events(s_.ast, L):
-                grows.append((k, evaluator(ctx, df, s_.env).ev(v).key()))
+                key = evaluator(ctx, df, s_.env).ev(v).key()
+                if k == "append":
+                    k, key = "extend", f"[{key}]"  # append(x) adds the one-element sequence [x]
+                grows.append((k, key))
         for c, e, st in calls_on(p):
             if isinstance(c.func, ast.Name) and c.func.id == "resize_buffer":
                 R = evaluator(ctx, df, e).ev(c).key()
